@@ -852,5 +852,7 @@ func TestC14(t *testing.T) {
 	c.Rule("objects: 1-3 programs that import a bundled package, make an object with a constructor of its table (compiled regular expression - four constructors -, byte buffer, string reader, replacer, big integer, parsed URL, error value) from arguments that carry a number drawn from 0..2^24 (the programs of a case share them), observe it through 1-5 method calls of which some change the object (Longest, WriteString, ReadByte, Reset, Add, SetInt64, field stores ...), and return the list of observations; 4-8 executions, each in a fresh environment, then optionally every program from 2-3 goroutines at once; every execution of one source must give the result its first execution gave; non-trivial = a program ran at least twice and some program changes its object and observes it afterwards")
 	h.Run(c, "objects", c.N(1200, 10000), genObjects, oracleObjects)
 	c.Rule("options: one program parsed once and ONE *vm.Options value (Debug drawn) passed to every run: 2 .. some hundred runs one after the other, then 2-16 goroutines at once, every run in a fresh environment (alternating presets); every run must equal a fresh parse run in an equal fresh environment with an Options value of its own. Programs: a loop of 1-150 calls that fail (twelve forms: a Go function that panics, a callback that fails inside a Go function, failed lookup / index / member / conversion / arity, throw) each caught and followed by a successful call, optionally ending with an uncaught failure; or recursion 1-2500 deep (plain, closure variable, mutual, with deferred calls, failing at the bottom, with a caught failure at every level); the host function meet() at the deepest point makes the concurrent runs wait for each other. Every second case is large (12 000-26 000 failing calls made with the one Options value, or recursion 1500-2500 deep in each of 8-16 goroutines); non-trivial = at least 3 runs with the one Options value")
-	h.Run(c, "options", c.N(24, 360), genOptions, oracleOptions)
+	h.Run(c, "options", c.N(20, 360), genOptions, oracleOptions)
+	c.Rule("firstrun: programs of 1-4 snippets, every snippet a small well-typed piece of anko over written-out operands (x in [written-out list] in six spellings, list / map / typed / nested / string literals indexed and sliced, arithmetic, comparison, logic, ternary, ??, ++ / op=, switch over literals, the five loop forms, functions / closures / variadic / deferred / anonymous calls, make / new / pointers / channels / struct types, try / throw, module, var, multi-assignment, import), evaluated once, in a loop, or in a function called twice; written-out lists have 1-8 elements, one in eight 200-3000 (the item searched for near the start, the middle, the end, or absent). The tree is parsed once; its FIRST execution happens from 2-16 goroutines released at the same moment, each in a fresh environment (three cases in four; else two runs one after the other first), then the other phase; every run must equal the run of another fresh parse alone, and the dump of the tree must not change; non-trivial = the program ran to its end and >= 2 goroutines")
+	h.Run(c, "firstrun", c.N(180, 4000), genFirstRun, oracleFirstRun)
 }
